@@ -58,7 +58,7 @@ class C01(core.Check):
     PROPS = 'props/C01.v'
     MODEL_IMPORTS = ['gen.Gen_funnel', 'model.Funnel']
     QUICK_CASES = 700
-    THOROUGH_CASES = 30000
+    THOROUGH_CASES = 8000
     PARTIAL = ('proved only for the exception funnel, float_safe/FloatErrorHandler, OS error translation, TIME$/DATE$/'
                'ENVIRON validation and the PEEK preset table (plus, in C10/C14/C20, string-pointer dereference and '
                'RENUM trap remapping); the host-exception freedom of the remaining ~300 statement and function '
